@@ -540,19 +540,28 @@ class BaseSection(base.Sectionable):
         if not isinstance(obj_list, Iterable):
             raise TypeError("'%s' object is not iterable" % type(obj_list).__name__)
 
-        # Make sure only Sections and Properties with unique names will be added.
+        # Make sure only Sections and Properties with unique names will be added and
+        # that nothing is added in case any of the entries has to be refused.
+        obj_list = list(obj_list)
+        new_sec_names = []
+        new_prop_names = []
         for obj in obj_list:
             if not isinstance(obj, BaseSection) and not isinstance(obj, BaseProperty):
                 msg = "odml.Section.extend: Can only extend sections and properties."
                 raise ValueError(msg)
 
-            if isinstance(obj, BaseSection) and obj.name in self.sections:
-                msg = "odml.Section.extend: Section with name '%s' already exists." % obj.name
-                raise KeyError(msg)
+            if isinstance(obj, BaseSection):
+                if obj.name in self.sections or obj.name in new_sec_names:
+                    msg = "odml.Section.extend: Section with name '%s' already exists." % obj.name
+                    raise KeyError(msg)
+                self._check_no_cycle(obj)
+                new_sec_names.append(obj.name)
 
-            if isinstance(obj, BaseProperty) and obj.name in self.properties:
-                msg = "odml.Section.extend: Property with name '%s' already exists." % obj.name
-                raise KeyError(msg)
+            if isinstance(obj, BaseProperty):
+                if obj.name in self.properties or obj.name in new_prop_names:
+                    msg = "odml.Section.extend: Property with name '%s' already exists." % obj.name
+                    raise KeyError(msg)
+                new_prop_names.append(obj.name)
 
         for obj in obj_list:
             self.append(obj)
